@@ -6,3 +6,29 @@ package btc
 
 // ---- C33: address drivers reachable from Transaction.From must not panic --------------------------
 //@ func (*utxo).PubKeyToAddr [C33]
+
+// ---- C19: the address of a public key does not depend on what was looked up before --------------------
+// btcAddrOf(version, pubkey) names FormatBtcAddr's result (a deterministic encoding). Each cache may only
+// hold entries of its own version; then a hit returns what a miss would compute.
+//@ smt (declare-fun btcAddrOf (Int Bytes) Bytes)
+//@ trusted func FormatBtcAddr
+//@   frame nothing
+//@   ensures result == btcAddrOf(version, bytes(pubKey))
+//@ func (*btc).PubKeyToAddr [C19]
+//@   opt safety=assumed
+//@   requires normalAddrCache != nil && multiSignAddrCache != nil && normalAddrCache != multiSignAddrCache
+//@   requires forall k Bytes :: normalAddrCache.lruhas[k] ==> asstring(normalAddrCache.lruval[k]) == btcAddrOf(address.NormalVer, k)
+//@   requires forall k Bytes :: multiSignAddrCache.lruhas[k] ==> asstring(multiSignAddrCache.lruval[k]) == btcAddrOf(5, k)
+//@   ensures result == btcAddrOf(address.NormalVer, old(bytes(pubKey)))
+//@   ensures forall k Bytes :: normalAddrCache.lruhas[k] ==> asstring(normalAddrCache.lruval[k]) == btcAddrOf(address.NormalVer, k)
+//@   assert@call Cache).Add: arg0 == normalAddrCache && asstring(arg1) == old(bytes(pubKey))
+//@   assert@call Cache).Get: arg0 == normalAddrCache && asstring(arg1) == old(bytes(pubKey))
+//@ func (*btcMultiSign).PubKeyToAddr [C19]
+//@   opt safety=assumed
+//@   requires normalAddrCache != nil && multiSignAddrCache != nil && normalAddrCache != multiSignAddrCache
+//@   requires forall k Bytes :: normalAddrCache.lruhas[k] ==> asstring(normalAddrCache.lruval[k]) == btcAddrOf(address.NormalVer, k)
+//@   requires forall k Bytes :: multiSignAddrCache.lruhas[k] ==> asstring(multiSignAddrCache.lruval[k]) == btcAddrOf(5, k)
+//@   ensures result == btcAddrOf(5, old(bytes(pubKey)))
+//@   assert@call Cache).Add: arg0 == multiSignAddrCache && asstring(arg1) == old(bytes(pubKey))
+//@   assert@call Cache).Get: arg0 == multiSignAddrCache && asstring(arg1) == old(bytes(pubKey))
+//@   ensures forall k Bytes :: multiSignAddrCache.lruhas[k] ==> asstring(multiSignAddrCache.lruval[k]) == btcAddrOf(5, k)
